@@ -508,7 +508,7 @@ func TestVerifC13Merge(t *testing.T) {
 			return c
 		},
 		Check:        c13Run,
-		MinLabelFrac: map[string]float64{"a trace was dropped": 0.15, "fragments outside the merge": 0.3, "trace spread over merged parts": 0.4},
+		MinLabelFrac: map[string]float64{"a trace was dropped": 0.1, "fragments outside the merge": 0.2, "trace spread over merged parts": 0.3},
 	})
 }
 
